@@ -132,9 +132,11 @@ int main( int argc, char** argv )
         while ( c.threads.size() < 2 ) c.threads.push_back( std::vector<vcase::op_t>());
         c.threads.resize( 2 );
         // preconditions the code does not check and whose violation corrupts memory: never run them
-        bool safe = cap >= 16 && cap % 8 == 0;
+        size_t ecap = cap;      // what the buffer allocates: Exp2 = true rounds up to a power of two
+        if ( exp2 ) { ecap = 1; while ( ecap < cap ) ecap *= 2; }
+        bool safe = ecap >= 16 && ecap % 8 == 0;
         for ( auto const& op : c.threads[0] )
-            if ( op.size() == 3 && ( op[0] == 1 || op[0] == 2 ) && ( op[1] < 1 || (size_t)(( op[1] + 7 ) / 8 * 8 + 8 ) > cap )) safe = false;
+            if ( op.size() == 3 && ( op[0] == 1 || op[0] == 2 ) && ( op[1] < 1 || (size_t)(( op[1] + 7 ) / 8 * 8 + 8 ) > ecap )) safe = false;
         if ( !safe ) { std::printf( "case %s\nendcase refused\n", c.id.c_str()); continue; }
         if ( exp2 ) run_on<cc::WeakRingBuffer<void, ring_traits<dyn_exp2>>>( c, cap );
         else run_on<cc::WeakRingBuffer<void, ring_traits<dyn_any>>>( c, cap );
